@@ -7,6 +7,7 @@ import (
 	"bytes"
 	"encoding/binary"
 	"errors"
+	"fmt"
 	"hash"
 	"io"
 	"sort"
@@ -164,6 +165,11 @@ func (idx *BlockIndex) ReadFrom(r io.Reader) (int64, error) {
 	n, err = io.ReadFull(r, idx.sortedOff)
 	if err != nil {
 		return 0, err
+	}
+	for _, off := range idx.sortedOff {
+		if int(off) >= l {
+			return 0, fmt.Errorf("invalid block index: offset %d out of range (%d rows)", off, l)
+		}
 	}
 	total += int64(n)
 	for i := 0; i < l; i++ {
